@@ -113,4 +113,19 @@ def iterGCount {σ : Type} (step : σ → OutG σ) : Nat → σ → Option (Bool
     | .stuck => none
     | .trap => none
 
+/-- the edge binary search of `align_strong_points` (autohint/hint/outline.rs; text compared on every run):
+`while min_ix < max_ix { let mid_ix = (min_ix + max_ix) >> 1; match u.cmp(&fpos) { Less => max_ix = mid_ix,
+Greater => min_ix = mid_ix + 1, Equal => { …; continue 'points } } }`.  `cmp mid tick` is the data comparison
+(arbitrary); the result is `some (found?, index)`, `none` = no exit within `fuel` iterations. -/
+def bsearch (cmp : Nat → Nat → Ordering) : Nat → Nat → Nat → Nat → Option (Bool × Nat)
+  | 0, _, _, _ => none
+  | fuel + 1, tick, mn, mx =>
+    if mn < mx then
+      let mid := (mn + mx) >>> 1
+      match cmp mid tick with
+      | .lt => bsearch cmp fuel (tick + 1) mn mid
+      | .gt => bsearch cmp fuel (tick + 1) (mid + 1) mx
+      | .eq => some (true, mid)
+    else some (false, mn)
+
 end FontVerif.LoopIter
